@@ -72,6 +72,7 @@ def _scenarios(prop, tier, seed=0):
         # schedule [stale entry of q1, q2] when the only pool thread frees up: B's sync drains q1 itself (its schedule entry stays behind), then q2 is queued
         L.append(S('c03_p1_stale_entry_r2', [T('A', ('desync', 0, GATE)), T('B', ('desync', 1), ('sync', 1), ('desync', 2), ('open_gate', 0))], pool_max=1, queues=3, R=2, B=34,
                    order=[0, 2, 1], oracles=BASE + ('deadlock', 'quiescent_complete')))
+        if q: L += state_matrix('C03', lambda st, k, P: BASE + ('quiescent_complete',), want=lambda st, k: st in ('wfw', 'runpool', 'pending', 'suspended', 'stale_pool') and k in ('desync', 'sync', 'try'), R=2)
         if not q: L.append(S('c03_p1_stale_entry', [T('A', ('desync', 0, GATE)), T('B', ('desync', 1), ('sync', 1), ('desync', 2)), T('W', ('open_gate', 0))], pool_max=1, queues=3, R=3, B=16,
                    oracles=BASE + ('quiescent_complete',)))
         if not q:
@@ -82,7 +83,7 @@ def _scenarios(prop, tier, seed=0):
             L.append(S('c03_p2_three_queues', [T('A', ('desync', 0)), T('B', ('desync', 1)), T('C', ('desync', 2))], pool_max=2, queues=3, R=3, B=14,
                        oracles=BASE + ('quiescent_complete',)))
             L += matrix('C03', lambda a, b, P: BASE + ('quiescent_complete',), pools=(1,))
-            L += state_matrix('C03', lambda st, k, P: BASE + ('quiescent_complete',), want=lambda st, k: st in ('wfw', 'runpool', 'pending', 'suspended'))
+            L += state_matrix('C03', lambda st, k, P: BASE + ('quiescent_complete',), want=lambda st, k: st in ('wfw', 'runpool', 'pending', 'suspended', 'stale_pool'))
     elif prop == 'C04':
         L.append(S('c04_p0_sync_sync_desync', [T('A', ('sync', 0)), T('B', ('sync', 0)), T('C', ('desync', 0))], pool_max=0, R=3, B=14,
                    oracles=BASE + ('results', 'deadlock')))
@@ -193,6 +194,10 @@ def _scenarios(prop, tier, seed=0):
                                                  T('B', ('future_desync', 0, {'fut': ('gate', 1), 'as': 'g'}), ('detach', 'g'), ('sync', 0), after=['A']),
                                                  T('W', ('open_gate', 0), ('rewake', 0), ('open_gate', 1))],
                    pool_max=0, seq='A! W A! B! W B W B', B=24, oracles=BASE + ('deadlock', 'results')))
+        # every suspension context of the state matrix (pool thread, sync caller's drain, hand poll), woken once and then again by a kept clone of
+        # the same waker ("repeatedly"), with a marker operation behind the suspended one
+        L += state_matrix('C06', lambda st, k, P: BASE + ('deadlock', 'results') + (('quiescent_complete',) if P else ()), R=(2 if q else 3), rewake=True,
+                          want=lambda st, k: (st == 'wfw' and k in ('desync', 'sync')) or (st in ('wfu', 'wfp') and k == 'desync'))
     elif prop == 'C07':
         L.append(S('c07_p1_await', [T('A', ('future_desync', 0, {'fut': 'ready', 'as': 'f'}), ('block_on', 'f'))], pool_max=1, R=3, B=16,
                    oracles=BASE + ('deadlock', 'fut_results')))
@@ -420,19 +425,21 @@ def smx_setup(st):
         return [T('A', ('future_desync', 0, {'fut': ('gate', 0), 'as': 'fA'}), ('block_on', 'fA'), ('open_gate', 5))], 0, 1, 'A! W! A!', [('open_gate', 0), ('wait_gate', 5), ('rewake', 0)]
     raise KeyError(st)
 
-def state_matrix(prop, oracles_for, want=None, R=3, B=16, kinds=('desync', 'sync', 'try', 'fdes_await', 'fsync')):
+def state_matrix(prop, oracles_for, want=None, R=3, B=16, kinds=('desync', 'sync', 'try', 'fdes_await', 'fsync'), rewake=False):
     L = []
     for st in SMX_STATES:
         for kb in kinds:
             if want is not None and not want(st, kb): continue
             ths, P, nq, setup, ev = smx_setup(st)
+            # repeated wake-up: the event source fires a kept clone of the same waker a second time, at a solver-chosen later point
+            if rewake and ('open_gate', 0) in ev and ('rewake', 0) not in ev: ev = ev + [('rewake', 0)]
             opsb, gb = mx_ops(kb, 'B', 0, 2)
             heavy = kb in ('fdes_await', 'fsync')
             orc = tuple(oracles_for(st, kb, P))
             if P == 0 and (heavy or st in ('wfp',)): orc = tuple(o for o in orc if o not in ('deadlock', 'quiescent_complete', 'fut_results'))
             if st == 'suspended': orc = tuple(o for o in orc if o != 'order') + ('suspend',)
             # resuming needs one more hand-over (W opens the gate, A resumes, the pool thread runs the held work, B returns)
-            L.append(S('%s_smx_%s_%s' % (prop.lower(), st, kb), ths + [T('B', *opsb), T('W', *ev)], pool_max=P, queues=nq, R=R + (1 if st == 'suspended' else 0), B=B + (4 if heavy else 0), setup=setup, oracles=orc, cap=(4 if kb == 'fsync' else 3)))
+            L.append(S('%s_smx_%s_%s%s' % (prop.lower(), st, kb, '_rw' if rewake else ''), ths + [T('B', *opsb), T('W', *ev)], pool_max=P, queues=nq, R=R + (1 if st == 'suspended' else 0), B=B + (4 if heavy else 0), setup=setup, oracles=orc, cap=(4 if kb == 'fsync' else 3)))
     return L
 
 def rotate_orders(L, seed):
